@@ -561,6 +561,25 @@ func genC01(r *Rng, tier string, emit func(Case)) {
 		// scripts
 		sc := r.Bytes(r.Pick(0, 1, 23, 25, 35, 100, r.Intn(300)))
 		e("addr", "script", []string{"shs", "sh32s", "lshs"}[r.Intn(3)], itoa(ni), hx(sc))
+		// scripts that are themselves shaped like standard output scripts (P2SH, P2SH32, P2PKH, P2PK, a bare push of 20
+		// or 32 bytes): the constructors hash the script, whatever it looks like
+		if i%8 == 0 {
+			h20, h32 := r.Bytes(20), r.Bytes(32)
+			shaped := [][]byte{
+				append(append([]byte{0xa9, 0x14}, h20...), 0x87),
+				append(append([]byte{0xaa, 0x20}, h32...), 0x87),
+				append(append([]byte{0x76, 0xa9, 0x14}, h20...), 0x88, 0xac),
+				append(append([]byte{0x21, 0x02}, h32...), 0xac),
+				append([]byte{0x14}, h20...),
+				append([]byte{0x20}, h32...),
+				h20, h32,
+			}
+			for _, ss := range shaped {
+				for _, k := range []string{"shs", "sh32s", "lshs"} {
+					e("addr", "script-shaped", k, itoa(ni), hx(ss))
+				}
+			}
+		}
 		// public keys
 		pub := randPubKey(r)
 		f := r.Intn(3)
